@@ -1,8 +1,17 @@
 import H2T.Render
+import H2T.Lemmas.CfgTree
 
 /-! # C15 — layout options are orthogonal and do only what they say
 
-Status: **partial** — proved: `max_wrap_width(m)` with `m ≥` the block's width creates exactly the wrapped
+Status: **partial** — proved for whole renderings of the model (every tree incl. tables, every decorator and width):
+**`max_wrap_width(m)` with `m ≥ width` changes nothing** when overflow is off (`maxwrap_ge_noop_whole_run`; with
+`allow_width_overflow` a nested block can be wider than the requested width and the statement is *refuted*,
+`maxwrap_overflow_refuted` — the known finding C15-maxwrap-overflow); **options that do not apply leave the rendering
+unchanged**: the strikeout option on trees without `<s>`/`<del>` (`strikeout_irrelevant_without_strike`), border
+drawing and raw mode on trees without tables (`table_options_irrelevant_without_tables`), footnotes and link wrapping on
+trees without links (`link_options_irrelevant_without_links`), link wrapping when footnotes are off
+(`link_wrapping_irrelevant_without_footnotes`) — all corollaries of one simulation theorem (`Lemmas/CfgCongr`,
+`CfgTree.renderTree_sim`).  Also proved: `max_wrap_width(m)` with `m ≥` the block's width creates exactly the wrapped
 block it creates without the option; the strikeout filter only inserts U+0336 (erasing the marks gives the
 text back) and is the identity when disabled; without borders no rule is ever added by a table.  The relations
 for padding, raw mode and footnotes are decided by correspondence and the pairwise oracle. -/
@@ -61,7 +70,76 @@ theorem strike_keeps_width (s : List Ch) : dispW (strikeFilter s) = dispW s := b
 theorem strike_leaves_whitespace (c : Ch) (h : c.ws = true) : strikeFilter [c] = [c] := by
   simp [strikeFilter, h]
 
+/-! ## whole renderings -/
+
+theorem treeAgree_refl_fields {c1 c2 : Cfg} (tree : RNode) (h1 : c1.footnotes = c2.footnotes) (h2 : c1.unicodeStrike = c2.unicodeStrike)
+    (h3 : c1.raw = c2.raw) (h4 : c1.drawBorders = c2.drawBorders) : TreeAgree c1 c2 tree := by
+  intro f _; cases f
+  · exact h1
+  · exact h2
+  · exact ⟨h3, h4⟩
+
+/-- configurations that differ in no option a sub-renderer reads are indistinguishable at every width -/
+theorem cfgSim_all {c1 c2 : Cfg} (hp : c1.padBlocks = c2.padBlocks) (ho : c1.overflow = c2.overflow) (hw : c1.wrapWidth = c2.wrapWidth) :
+    CfgSim (fun _ => True) c1 c2 :=
+  ⟨hp, ho, fun w _ => by unfold wwOf; rw [hw], fun _ _ _ _ => trivial, fun _ _ => trivial⟩
+
+/-- **`max_wrap_width(m)` with `m ≥ width` is a no-op** on whole renderings (overflow off): every tree — paragraphs,
+    nested lists and quotes, tables side by side or stacked — every decorator, every other option -/
+theorem maxwrap_ge_noop_whole_run (cfg : Cfg) (d : Deco) (w m : Nat) (tree : RNode) (hov : cfg.overflow = false) (hm : w ≤ m) :
+    renderTree { cfg with wrapWidth := some m } d w tree = renderTree { cfg with wrapWidth := none } d w tree := by
+  have hsim : CfgSim (fun x => x ≤ m) { cfg with wrapWidth := some m } { cfg with wrapWidth := none } :=
+    ⟨rfl, rfl, fun x hx => by simp only [wwOf]; exact Nat.min_eq_right hx, fun _ _ h1 h2 => Nat.le_trans h2 h1,
+     fun h => by simp [hov] at h⟩
+  exact renderTree_sim hsim d w tree hm rfl (treeAgree_refl_fields tree rfl rfl rfl rfl) (fun _ _ => rfl)
+
+/-- …and the overflow hypothesis is necessary: with `allow_width_overflow` a list item at width 1 is rendered in a
+    sub-renderer 3 columns wide, where `max_wrap_width(2)` does bite although 2 ≥ 1 (5 lines instead of 3) -/
+theorem maxwrap_overflow_refuted :
+    ∃ (cfg : Cfg) (d : Deco) (w m : Nat) (tree : RNode), w ≤ m ∧
+      renderTree { cfg with wrapWidth := some m } d w tree ≠ renderTree { cfg with wrapWidth := none } d w tree := by
+  refine ⟨{ overflow := true }, Deco.plain, 1, 2, .box {} .ul [.box {} .li [.text {} (strCh "aaa bbb cc")]], by decide, ?_⟩
+  intro h
+  have h2 := congrArg (fun r => r.toOption.map List.length) h
+  revert h2
+  decide +kernel
+
+/-- **the strikeout option does nothing without struck text** -/
+theorem strikeout_irrelevant_without_strike (cfg : Cfg) (b : Bool) (d : Deco) (w : Nat) (tree : RNode) (hn : uses .strike tree = false) :
+    renderTree { cfg with unicodeStrike := b } d w tree = renderTree cfg d w tree := by
+  refine renderTree_sim (c1 := { cfg with unicodeStrike := b }) (c2 := cfg) (cfgSim_all (c1 := { cfg with unicodeStrike := b }) (c2 := cfg) rfl rfl rfl) d w tree trivial rfl ?_ (fun _ _ => rfl)
+  intro f hf; cases f
+  · rfl
+  · rw [hn] at hf; simp at hf
+  · exact ⟨rfl, rfl⟩
+
+/-- **border drawing and raw mode do nothing without tables** -/
+theorem table_options_irrelevant_without_tables (cfg : Cfg) (r b : Bool) (d : Deco) (w : Nat) (tree : RNode) (hn : uses .tables tree = false) :
+    renderTree { cfg with raw := r, drawBorders := b } d w tree = renderTree cfg d w tree := by
+  refine renderTree_sim (c1 := { cfg with raw := r, drawBorders := b }) (c2 := cfg) (cfgSim_all (c1 := { cfg with raw := r, drawBorders := b }) (c2 := cfg) rfl rfl rfl) d w tree trivial rfl ?_ (fun _ _ => rfl)
+  intro f hf; cases f
+  · rfl
+  · rfl
+  · rw [hn] at hf; simp at hf
+
+/-- **footnotes and link wrapping do nothing without links** -/
+theorem link_options_irrelevant_without_links (cfg : Cfg) (fn wl : Bool) (d : Deco) (w : Nat) (tree : RNode) (hn : uses .links tree = false) :
+    renderTree { cfg with footnotes := fn, wrapLinks := wl } d w tree = renderTree cfg d w tree := by
+  refine renderTree_sim (c1 := { cfg with footnotes := fn, wrapLinks := wl }) (c2 := cfg) (cfgSim_all (c1 := { cfg with footnotes := fn, wrapLinks := wl }) (c2 := cfg) rfl rfl rfl) d w tree trivial rfl ?_ (fun hu => by rw [hn] at hu; simp at hu)
+  intro f hf; cases f
+  · rw [hn] at hf; simp at hf
+  · rfl
+  · exact ⟨rfl, rfl⟩
+
+/-- **link wrapping does nothing when footnotes are off** -/
+theorem link_wrapping_irrelevant_without_footnotes (cfg : Cfg) (wl : Bool) (d : Deco) (w : Nat) (tree : RNode) (hf : cfg.footnotes = false) :
+    renderTree { cfg with wrapLinks := wl } d w tree = renderTree cfg d w tree := by
+  refine renderTree_sim (c1 := { cfg with wrapLinks := wl }) (c2 := cfg) (cfgSim_all (c1 := { cfg with wrapLinks := wl }) (c2 := cfg) rfl rfl rfl) d w tree trivial rfl (treeAgree_refl_fields tree rfl rfl rfl rfl) ?_
+  intro _ h; simp [hf] at h
+
 /-! non-vacuity -/
+example : uses .strike (.box {} .block [.text {} (strCh "a")]) = false ∧ uses .tables (.box {} .block [.text {} (strCh "a")]) = false ∧
+    uses .links (.box {} .block [.text {} (strCh "a")]) = false := by decide
 example : (strikeFilter (strCh "a b")).map (·.cp) = [97, 0x336, 32, 98, 0x336] := by decide
 example : (({ width := 10 } : SubR).getWrapping { wrapWidth := some 4 }).width = 4 := by decide
 
